@@ -70,12 +70,13 @@ QUICK_VARIANTS = [
     ("d32-proj-bin", _cfg(32, True, proj=True, fxp="SLIDING_WIN", fw=4, unk="BIN", uw=2, twin="BIN"), "gcc", True),
 ]
 THOROUGH_EXTRA = [
-    ("d16-proj-mix-joint", _cfg(16, True, True, True, True, "COMB_1T", 3, "SLIDING_WIN", 3, "JOINT"), "gcc", True),
+    # NB: the sliding-window width "must be power of 2" (header comment); 3 or 5 makes the precompute fail
+    ("d16-proj-mix-joint", _cfg(16, True, True, True, True, "COMB_1T", 3, "SLIDING_WIN", 2, "JOINT"), "gcc", True),
     ("d128-proj-inter", _cfg(128, True, True, True, False, "COMB_2T", 4, "COMB_1T", 2, "INTER", chk=False), "gcc", False),
     ("d8-proj-bin-nochk", _cfg(8, True, True, True, True, "BIN", 2, "BIN", 2, "BIN", chk=False, bitlen=1408), "gcc", False),
     ("d64-nomd-bin", _cfg(64, False, True, False, False, "BIN", 2, "BIN", 2, "BIN"), "gcc", True),
     ("proj-nomix-joint-c2t5", _cfg(64, True, True, False, True, "COMB_2T", 5, "COMB_2T", 5, "JOINT"), "gcc", True),
-    ("proj-mix-fxpunk-sw", _cfg(64, True, True, True, False, "SLIDING_WIN", 5, "SLIDING_WIN", 4, "FXP_UNKPT", chk=False), "gcc", False),
+    ("proj-mix-fxpunk-sw", _cfg(64, True, True, True, False, "SLIDING_WIN", 4, "SLIDING_WIN", 4, "FXP_UNKPT", chk=False), "gcc", False),
     ("proj-precalcdbl", _cfg(64, True, True, True, True, "BIN_PRECALC_DBL", 2, "BIN", 2, "FXP_UNKPT"), "gcc", True),
     ("aff-bin", _cfg(64, True, False, fxp="BIN", fw=2, unk="BIN", uw=2, twin="BIN", chk=False), "gcc", False),
     ("aff-c2t5-joint-d32", _cfg(32, False, False, fxp="COMB_2T", fw=5, unk="COMB_1T", uw=3, twin="JOINT"), "gcc", True),
@@ -89,7 +90,7 @@ THOROUGH_EXTRA = [
 
 
 # affine arithmetic, binary multiplication, narrow digits: 5-15x the cost of the suite's configuration;
-# these variants get a rotating third (quick) / half (thorough) of the sign tuples
+# these variants get a rotating third of the sign tuples
 SLOW_VARIANTS = {"defaults", "aff-fxpunk-nochk", "d32-proj-bin", "d16-proj-mix-joint", "d8-proj-bin-nochk",
                  "d64-nomd-bin", "aff-bin", "aff-c2t5-joint-d32", "aff-sw4-d16", "defaults-d32-nomd",
                  "d32-proj-mix-inter-nochk"}
@@ -267,7 +268,7 @@ def gen_tuples(c, order, rng, tier):
         (rd(), rh(nb), 0, "k0"),
         (rd(), (b"\x80" + b"\x00" * nb) if order == "big" else (b"\x00" * nb + b"\x80"), rk(), "hlen+1-topbit"),
     ]
-    for i in range(10 if tier == "thorough" else 0):
+    for i in range(9 if tier == "thorough" else 0):
         T.append((rd(), rh(rng.range(1, 2 * nb + 1)), rk(), "rand%d" % i))
     out = []
     for i, (d, h, k, tag) in enumerate(T):
@@ -604,10 +605,10 @@ def work_curve(job):
     for vname, exe in exes.items():
         vm = meta[vname]
         vrng = Rng("C03v", common.seed(), ci, oname, vname)
-        # cost grows with bits^3: slow variants get a rotating third (quick) / half (thorough) of the
+        # cost grows with bits^3: slow variants get a rotating third of the
         # tuples, curves of 384 bits and more half of that again; over the 32 curves every tuple kind
         # meets every variant
-        div = (3 if tier == "quick" else 2) if vm.get("slow") else 1
+        div = 3 if vm.get("slow") else 1
         if c.bits >= 384:
             div *= 2
         sel = [i for i in range(len(tuples)) if (i + ci) % div == vm["idx"] % div]
@@ -625,6 +626,9 @@ def work_curve(job):
                       "driver died in both sanitizer and plain build", {"report": o.report[-3000:]})
                 continue
             ob = Obs(o)
+            if ob.rc == RC_SETUP:
+                part["inconclusive"].append("driver setup failed (curve %s does not load in variant %s)" % (c.name, vname))
+                break
             lib = None
             if ob.rc == 0:
                 ob.r.u32()
@@ -651,13 +655,20 @@ def work_curve(job):
                             cause = t["cause"]
                     except ecdsa.Invalid:
                         pass
-                _viol(part, "oracle:%s:signature-differs-from-standard:%s" % (ent, cause), vname, vm, sc,
+                key = ("oracle:%s:nonstandard-hash:%s" % (ent, cause)) if cause != "unexplained" else \
+                    ("oracle:%s:signature-differs-from-standard" % ent)
+                _viol(part, key, vname, vm, sc,
                       {"r": hex(t["ref"][0]), "s": hex(t["ref"][1])}, {"r": hex(lib[0]), "s": hex(lib[1])},
                       "curve %s hash %s (len %d) d=%x k'=%x: deterministic signature must equal the reference" % (
                           c.name, t["h"].hex(), len(t["h"]), t["d"], t["k_eff"]))
                 common.part_count(part, "sign_mismatch")
             else:
                 common.part_count(part, "sign_equal_reference")
+                if not any(x.get("op") == "sign" for x in part["samples"]):
+                    part["samples"].append({"op": "sign", "curve": c.name, "entry": ent, "variant": vname, "tuple": t["tag"],
+                                            "hash": t["h"].hex(), "priv_key": t["db"].hex(), "rnd": t["rnd"].hex(),
+                                            "effective_nonce": hex(t["k_eff"]), "library_r": hex(lib[0]),
+                                            "library_s": hex(lib[1]), "equals_reference": True})
             # ---- verification phase ----
             if t["muts"] is None:
                 mrng = Rng("C03m", common.seed(), ci, oname, t["tag"])
@@ -695,21 +706,25 @@ def work_curve(job):
             part["classes"].add(("verify", op, c.algo, oname, kind_class(kind), want, acc, hc or "std"))
             common.part_count(part, "verify_" + ("accept" if want else "reject") + "_expected")
             if acc == want:
+                if kind not in ("valid:" + t["form"], "valid") and sum(1 for x in part["samples"] if x.get("op") == "verify") < 2 \
+                        and (want or not any(x.get("op") == "verify" and not x["reference_accepts"] for x in part["samples"])):
+                    part["samples"].append({"op": "verify", "curve": c.name, "entry": ent, "variant": vname, "mutation": kind,
+                                            "hash": f[0].hex(), "r": f[1].hex(), "s": f[2].hex(),
+                                            "key": f[3].hex() + ("|" + f[4].hex() if op == "pub" and f[4] else ""),
+                                            "reference_accepts": want, "library_rc": ob.rc})
                 continue
             e_lib = lib_model_e(c, f[0], order)
             if acc and not vm["chk"] and nochk_unvalidated_key(c, order, op, f):
                 common.part_count(part, "nochk_unvalidated_key_accepted_not_gated")
                 continue
             # label by cause: does the known non-standard hash handling explain the verdict?
-            cause = "unexplained"
+            what = "accepts-invalid" if acc else "rejects-valid"
+            key = "oracle:%s:%s:%s" % (ent, what, kind_class(kind))
             if hc is not None:
                 model = ref.pub(*f, e=e_lib) if op == "pub" else ref.priv(*f, e=e_lib)
                 if model == acc:
-                    cause = hc
-            if cause == "unexplained":
-                cause = kind_class(kind)
-            what = "accepts-invalid" if acc else "rejects-valid"
-            _viol(part, "oracle:%s:%s:%s" % (ent, what, cause), vname, vm, vc,
+                    key = "oracle:%s:nonstandard-hash:%s" % (ent, hc)
+            _viol(part, key, vname, vm, vc,
                   {"accept": want}, {"accept": acc, "rc": ob.rc},
                   "curve %s %s mutation %s (signature from %s): hash=%s r=%s s=%s key=%s" % (
                       c.name, oname, kind, src, f[0].hex(), f[1].hex(), f[2].hex(),
@@ -728,10 +743,9 @@ def _valid_small_tuple(c, order, rng):
     top = (1 << (8 * nb)) - 1
     d = rng.range(1, min(c.n - 1, top))
     k = rng.range(1, min(c.n - 1, top))
-    while True:
-        h = rng.bytes(nb)
-        if hash_cause(c, h, order) is None:
-            break
+    # a hash string short enough that neither truncation nor reduction applies: 8*len < bitlen(n)
+    h = rng.bytes(min(nb, (c.n.bit_length() - 1) // 8))
+    assert hash_cause(c, h, order) is None
     e = ecdsa.hash_to_e(c, h, order)
     r, s = ecdsa.sign_e(c, e, d, k)
     return d, h, e, r, s, ecdsa.mul_g(c, d)
@@ -790,7 +804,8 @@ def honesty_natural(part, c, ci, vname, vm, exe, rng):
         if want is None:
             continue
         if acc and not want:
-            _viol(part, "oracle:%s:accepts-invalid:%s:%s" % (ent, kind.split(":")[-1], kind.split(":")[0]), vname, vm, cs, {"accept": False},
+            rcls = "r-zero" if r_ == 0 else "s-zero" if s_ == 0 else "r-s-range" if (r_ >= n or s_ >= n) else kind.split(":")[0]
+            _viol(part, "oracle:%s:accepts-invalid:%s" % (ent, rcls), vname, vm, cs, {"accept": False},
                   {"accept": True, "rc": 0}, "curve %s: bn-level verifier accepted e=%x r=%x s=%x with key object '%s'" % (
                       c.name, e, r_, s_, kind))
         elif want and not acc:
@@ -826,22 +841,22 @@ def honesty_faults(part, c, ci, oname, order, le, vname, vm, exe, rng, tier):
     pk = encs["packed"]
     ck = encs["compressed"]
     quick = tier == "quick"
-    small = c.bits <= 128
+    small = c.name == "secp112r1"       # thorough: every position of every plan on this curve
     # (name, entry, builder(arm) -> case, tuple class, positions wanted)
     plans = [
-        ("verify-valid", _entry(OP_VERIFY, oname), lambda a: case_verify(ci, le, h, E(r), E(s), pk[0], pk[1], arm=a), "valid", 16 if quick else 150),
-        ("verify-r0s1", _entry(OP_VERIFY, oname), lambda a: case_verify(ci, le, h, E(0), E(1), pk[0], pk[1], arm=a), "r-zero", 16 if quick else 150),
-        ("verify-r0-compressed", _entry(OP_VERIFY, oname), lambda a: case_verify(ci, le, h, E(0), E(s), ck[0], ck[1], arm=a), "r-zero", 8 if quick else 100),
-        ("verify-priv-valid", _entry(OP_VERIFY_PRIV, oname), lambda a: case_verify_priv(ci, le, h, E(r), E(s), db, arm=a), "valid", 12 if quick else 150),
-        ("verify-priv-r0s1", _entry(OP_VERIFY_PRIV, oname), lambda a: case_verify_priv(ci, le, h, E(0), E(1), db, arm=a), "r-zero", 12 if quick else 150),
-        ("sign", _entry(OP_SIGN, oname), lambda a: case_sign(ci, le, h, db, E(k), nb=nb, arm=a), "sign", 14 if quick else 200),
+        ("verify-valid", _entry(OP_VERIFY, oname), lambda a: case_verify(ci, le, h, E(r), E(s), pk[0], pk[1], arm=a), "valid", 16 if quick else 60),
+        ("verify-r0s1", _entry(OP_VERIFY, oname), lambda a: case_verify(ci, le, h, E(0), E(1), pk[0], pk[1], arm=a), "r-zero", 16 if quick else 60),
+        ("verify-r0-compressed", _entry(OP_VERIFY, oname), lambda a: case_verify(ci, le, h, E(0), E(s), ck[0], ck[1], arm=a), "r-zero", 8 if quick else 40),
+        ("verify-priv-valid", _entry(OP_VERIFY_PRIV, oname), lambda a: case_verify_priv(ci, le, h, E(r), E(s), db, arm=a), "valid", 12 if quick else 60),
+        ("verify-priv-r0s1", _entry(OP_VERIFY_PRIV, oname), lambda a: case_verify_priv(ci, le, h, E(0), E(1), db, arm=a), "r-zero", 12 if quick else 60),
+        ("sign", _entry(OP_SIGN, oname), lambda a: case_sign(ci, le, h, db, E(k), nb=nb, arm=a), "sign", 14 if quick else 80),
     ]
     if oname == "be":
         plans += [
-            ("bn-verify-valid", "ecdsa_verify", lambda a: case_verify_bn(ci, e, r, s, Q[0], Q[1], arm=a), "valid", 14 if quick else 300),
-            ("bn-verify-r0s1", "ecdsa_verify", lambda a: case_verify_bn(ci, e, 0, 1, Q[0], Q[1], arm=a), "r-zero", 20 if quick else 300),
+            ("bn-verify-valid", "ecdsa_verify", lambda a: case_verify_bn(ci, e, r, s, Q[0], Q[1], arm=a), "valid", 14 if quick else 100),
+            ("bn-verify-r0s1", "ecdsa_verify", lambda a: case_verify_bn(ci, e, 0, 1, Q[0], Q[1], arm=a), "r-zero", 20 if quick else 100),
             ("bn-verify-s-out-of-range", "ecdsa_verify", lambda a: case_verify_bn(ci, e, 0, c.n, Q[0], Q[1], arm=a), "s-range", 4),
-            ("bn-verify-priv-r0s1", "ecdsa_verify_priv_key", lambda a: case_verify_bn(ci, e, 0, 1, d, 0, which=1, arm=a), "r-zero", 14 if quick else 300),
+            ("bn-verify-priv-r0s1", "ecdsa_verify_priv_key", lambda a: case_verify_bn(ci, e, 0, 1, d, 0, which=1, arm=a), "r-zero", 14 if quick else 100),
         ]
     cleans = run_judged(exe, vm, [pl[2](0) for pl in plans], part, lambda i: plans[i][1])
     cases = []
@@ -868,6 +883,9 @@ def honesty_faults(part, c, ci, oname, order, le, vname, vm, exe, rng, tier):
             continue
         common.part_count(part, "fault_positions_hit")
         part["classes"].add(("fault", ent, tcls, ob.func, ob.rc == 0))
+        if not any(x.get("op") == "failpoint" for x in part["samples"]):
+            part["samples"].append({"op": "failpoint", "curve": c.name, "entry": ent, "variant": vname, "plan": name,
+                                    "position": p, "of": N, "fired_in": ob.func, "library_rc": ob.rc, "case": cs.hex()})
         if ob.rc != 0:
             continue
         if tcls == "sign":
@@ -921,11 +939,12 @@ def run(tier):
     for ci in range(len(curves)):
         if only and curves[ci].name not in only:
             continue
+        mine = [g for g in groups if not (g[0].startswith("d8-") and curves[ci].bits > 256)]
         # failpoint enumeration: one variant per (curve, order), rotating over the variants
         # (N is 10^4..2*10^5 checked statuses per call, so positions are stride-sampled)
         fv = {"be": names[ci % len(names)], "le": names[(ci + 2) % len(names)]}
         for oi in range(len(ORDERS)):
-            for g in groups:
+            for g in mine:
                 jobs.append({"ci": ci, "oi": oi, "tier": tier, "exes": {v: exes[v] for v in g}, "meta": meta,
                              "fault_variant": fv})
     # big curves first so the pool drains evenly
@@ -937,9 +956,11 @@ def run(tier):
     import resource
     ru = resource.getrusage(resource.RUSAGE_CHILDREN)
     report.extra["cpu_s_children"] = round(ru.ru_utime + ru.ru_stime, 1)
+    if any(v.startswith("d8-") for v in names):
+        report.extra["variant_restrictions"] = "8-bit-digit variant runs on curves <= 256 bit only (cost ~25x)"
     report.extra["fault_enumeration"] = (
         "per (curve, byte order): one build variant; positions stride-sampled over the N checked statuses of one call "
-        "(quick ~14-20 per plan, thorough 100-300 per plan and ALL positions for curves <= 128 bit)")
+        "(quick ~14-20 per plan, thorough 40-100 per plan and ALL positions of every plan on secp112r1)")
     if report.extra["fault_positions_hit"] == 0:
         report.inconclusive.append("failpoint never fired")
     if report.extra.get("sign_equal_reference", 0) == 0:
